@@ -129,6 +129,17 @@ example :
       ∧ Normal (normalize q) = true ∧ Normal q = false := by
   refine ⟨by decide +kernel, by decide +kernel, by decide +kernel⟩
 
+/-- Span queries (`query/spans.py`) are opaque leaves of every rewrite: `normalize` leaves them alone,
+    de-duplicates equal ones, and lets `Every(f)` absorb only those that report the field `f`
+    (`SpanFirst` of a query on `f`), never an unfielded one. -/
+example :
+    let sp : Q := .opq none [40, 115, 112, 97, 110]
+    let sf : Q := .opq (some 0) [40, 115, 102]
+    normalize (.comp .or [sp, .every (some 0) 1, sf, sp] 2) = .comp .or [sp, .every (some 0) 1] 2
+      ∧ clean (.comp .and [sp, .term 0 [97] 1] 1) = true
+      ∧ acceptId (.not sp 3) = .not sp 1 ∧ replace 0 [113] [97] sp = sp ∧ sp.withBoost 4 = sp := by
+  refine ⟨by decide +kernel, by decide +kernel, by decide +kernel, by decide +kernel, by decide +kernel⟩
+
 /-! ### `RangeMixin.merge` -/
 
 /-- Under `Or`: the merge of two overlapping ranges holds exactly the terms of their union. -/
